@@ -1,4 +1,6 @@
 import AlgoVerif.Proofs.C05Binary
+import AlgoVerif.Proofs.C05BinomialOrder
+import AlgoVerif.Proofs.C05Fibonacci
 /-!
 # C05 — indexed heaps keep index, key and value consistent (property theorems)
 
@@ -68,3 +70,154 @@ example :
        .ok (.kv (some (50, 9))), .ok (.bool false), .ok (.ikv (some (2, 10, 8))),
        .ok (.ikv (some (5, 60, 7))), .ok (.ikv none), .ok (.int 0)] := by
   decide
+
+/-! ## indexed binomial heap -/
+
+/-- **Indexed binomial heap, full strength.**  Same statement as `C05_ibinary` for the Model of
+`heap/indexed_binomial.go`: every call of every history returns (no dangling `nodes[]` pointer, no out-of-range
+access, `merge`/`demote` stay within their fuel) and answers what the partial map allows, `Peek`/`Delete`
+returning an extremal key. -/
+theorem C05_ibinomial {K V : Type} (cmp : K → K → Int) (hc : LawfulCmp cmp) (eq : V → V → Bool) (cap : Nat)
+    (ops : List (Op K V)) :
+    Admitted cmp eq cap Map.empty ops (IBinomial.run cmp eq cap ops) := by
+  have := admitted_of_sim (IBinomial.step cmp eq) (IBinomial.InvO cmp cap) IBinomial.abs
+    (fun s op io => IBinomial.step_full hc eq s op io) ops (IBinomial.new cap) (IBinomial.invO_new cmp cap)
+  rw [IBinomial.abs_new] at this
+  exact this
+
+/-- **Indexed binomial heap, the representation invariant.**  After every history the state exists and
+satisfies `IBinomial.InvO`: the index-map invariant `Reg` (the ids of the linked nodes are pairwise distinct,
+every linked node `x` is registered as `nodes[x.index] = x`, every non-nil `nodes[i]` is a linked node whose
+`index` field is `i` — kept by the content swaps of `promote`, `demote` and `DeleteIndex`), `n` = number of held
+indices, and heap order of every (parent, child) pair of the forest (`HO`). -/
+theorem C05_ibinomial_invariant {K V : Type} (cmp : K → K → Int) (hc : LawfulCmp cmp) (eq : V → V → Bool)
+    (cap : Nat) (ops : List (Op K V)) :
+    ∃ h, execWith (IBinomial.step cmp eq) (IBinomial.new cap) ops = .ok h ∧ IBinomial.InvO cmp cap h :=
+  exec_of_sim (IBinomial.step cmp eq) (IBinomial.InvO cmp cap)
+    (fun s op io => by
+      obtain ⟨s', r, h1, h2, _⟩ := IBinomial.step_full hc eq s op io
+      exact ⟨s', r, h1, h2⟩)
+    ops (IBinomial.new cap) (IBinomial.invO_new cmp cap)
+
+/-- the index-map part needs no comparator law at all: for an arbitrary `cmp` every call still returns and
+answers exactly what the partial map prescribes, except that the index returned by `Peek/Delete` is merely held
+(`AdmitWeak`) -/
+theorem C05_ibinomial_indexmap {K V : Type} (cmp : K → K → Int) (eq : V → V → Bool) (cap : Nat)
+    (ops : List (Op K V)) :
+    AdmittedG (fun _ _ => True) cmp eq cap Map.empty ops (IBinomial.run cmp eq cap ops) := by
+  have := admitted_of_sim (P := fun _ _ => True) (cmp := cmp) (eq := eq) (cap := cap)
+    (IBinomial.step cmp eq) (IBinomial.Inv cap) IBinomial.abs
+    (fun s op inv => by
+      obtain ⟨⟨s', r⟩, hstep⟩ := IBinomial.step_total (cmp := cmp) eq s op inv
+      obtain ⟨h1, h2⟩ := IBinomial.step_sim eq s op s' r inv hstep
+      exact ⟨s', r, hstep, h1, h2⟩)
+    ops (IBinomial.new cap) (IBinomial.inv_new cap)
+  rw [IBinomial.abs_new] at this
+  exact this
+
+/-! ## indexed Fibonacci heap
+
+Full statement (same as `C05_ibinary`, not proved here):
+
+    theorem C05_ifibonacci (cmp) (hc : LawfulCmp cmp) (hz : ∀ a b, cmp a b = 0 → a = b) (eq) (cap) (ops) :
+        Admitted cmp eq cap Map.empty ops (IFib.run cmp eq cap ops)
+
+What is proved below, for all capacities, comparators with `cmp a b = 0 → a = b` (needed because `ChangeKey` of
+`indexed_fibonacci.go` keeps the old key object when the new key compares equal), value equalities and
+histories including invalid indices:
+
+* the **index-map invariant** (`IFib.Inv` = `Reg` + `n` counts the held indices): the ids of the nodes linked
+  into the forest are pairwise distinct, every linked node `x` is registered as `nodes[x.index] = x`, every
+  non-nil `nodes[i]` is a linked node whose `index` field is `i` — through cuts, cascading cuts, consolidation,
+  melds and root-list rotations — holds in every state the Model reaches;
+* every call that returns answers exactly what the partial map `index ⇀ (key, value)` prescribes
+  (`AdmitWeak`): exact success/failure of `Insert/ChangeKey/DeleteIndex/PeekIndex/ContainsIndex` for every
+  index argument, the returned key/value are the current ones of that index, `ContainsKey/ContainsValue`
+  exact on sparse index sets, `Size/IsEmpty` exact, `Peek/Delete` return a *held* index with its current key
+  and value and `Delete` removes exactly that index.
+
+What is missing from the full statement and is only **corresponded** (implementation vs Model vs Go oracle on
+every check run, incl. state dumps): (1) the key returned by `Peek/Delete` is *extremal* (heap order of the
+forest and `h.ext` being the minimum root, which after `consolidate` depends on every root having been entered
+into the `roots` table); (2) no call of the Model ends in `panic`/`diverge`: the node found by `nodes[i]` is in
+the forest, `roots[x.degree]` is in range — the degree bound `fib(degree+2) ≤ size` under marks that are
+toggled rather than cleared — and `consolidate` terminates within its fuel.
+`AdmittedWhileOk` says this literally: the trace is admitted up to the first `panic`/`diverge`, if any. -/
+
+theorem C05_ifibonacci_partial {K V : Type} (cmp : K → K → Int) (hz : ∀ a b, cmp a b = 0 → a = b)
+    (eq : V → V → Bool) (cap : Nat) (ops : List (Op K V)) :
+    AdmittedWhileOk (fun _ _ => True) cmp eq cap Map.empty ops (IFib.run cmp eq cap ops) := by
+  have := admittedWhileOk_of_sim (P := fun _ _ => True) (cmp := cmp) (eq := eq) (cap := cap)
+    (IFib.step cmp eq) (IFib.Inv cap) IFib.abs
+    (fun s op s' r inv he => IFib.step_sim hz eq s op s' r inv he) ops (IFib.new cap) (IFib.inv_new cap)
+  rw [IFib.abs_new] at this
+  exact this
+
+/-- the index-map invariant holds in every reachable state of the indexed Fibonacci heap Model -/
+theorem C05_ifibonacci_indexmap_partial {K V : Type} (cmp : K → K → Int) (hz : ∀ a b, cmp a b = 0 → a = b)
+    (eq : V → V → Bool) (cap : Nat) (ops : List (Op K V)) (h : IFib K V)
+    (he : execWith (IFib.step cmp eq) (IFib.new cap) ops = .ok h) : IFib.Inv cap h :=
+  exec_of_sim_ok (IFib.step cmp eq) (IFib.Inv cap)
+    (fun s op s' r inv he => (IFib.step_sim hz eq s op s' r inv he).1) ops _ _ (IFib.inv_new cap) he
+
+example : ∀ a b : Int, C05.cmpInt a b = 0 → a = b := by
+  intro a b h; unfold C05.cmpInt at h; split at h <;> (try split at h) <;> omega
+
+/-- the theorems are not vacuous: on this history (sparse indices, an out-of-range insert, a key
+decrease that cuts a node out of its tree, a key increase, a `DeleteIndex` of an inner node) both Models return
+from every call, so `AdmittedWhileOk` covers the whole trace -/
+example :
+    let ops : List (Op Int Nat) :=
+      [.insert 9 1 0, .insert 7 50 1, .insert 1 40 2, .insert 4 30 3, .insert 6 20 4, .insert 2 10 5, .delete,
+       .changeKey 7 5, .changeKey 6 60, .deleteIndex 4, .containsKey 60, .peek, .delete, .delete, .delete, .size]
+    IBinomial.run C05.cmpInt (fun a b => a == b) 8 ops = IFib.run C05.cmpInt (fun a b => a == b) 8 ops ∧
+    IFib.run C05.cmpInt (fun a b => a == b) 8 ops =
+      [.ok (.bool false), .ok (.bool true), .ok (.bool true), .ok (.bool true), .ok (.bool true),
+       .ok (.bool true), .ok (.ikv (some (2, 10, 5))), .ok (.bool true), .ok (.bool true),
+       .ok (.kv (some (30, 3))), .ok (.bool true), .ok (.ikv (some (7, 5, 1))), .ok (.ikv (some (7, 5, 1))),
+       .ok (.ikv (some (1, 40, 2))), .ok (.ikv (some (6, 60, 4))), .ok (.int 0)] := by
+  decide
+
+/-! ## invalid indices: rejected with `false`, in *any* state
+
+Unconditional (no invariant, no comparator law, any state `h` whatsoever — so in particular independent of the
+`panic`/`diverge` caveat of the `_partial` theorems): every index-taking call with an index outside
+`[0, len(nodes))` (resp. `len(kvs)`) returns normally, answers `false`/`none` and leaves the state unchanged. -/
+
+theorem C05_invalid_index_rejected_ibinary {K V : Type} (cmp : K → K → Int) (h : IBinary K V) (i : Int)
+    (hi : i < 0 ∨ i ≥ (h.kvs.size : Int)) (k : K) (v : V) :
+    h.insert cmp i k v = .ok (h, false) ∧ h.changeKey cmp i k = .ok (h, false) ∧
+    h.deleteIndex cmp i = .ok (h, none) ∧ h.peekIndex i = .ok none ∧ h.containsIndex i = .ok false := by
+  have hc : h.containsIndex i = .ok false := by
+    unfold IBinary.containsIndex; rw [if_neg (by omega)]
+  refine ⟨?_, ?_, ?_, ?_, hc⟩
+  · unfold IBinary.insert; rw [if_pos hi]
+  · unfold IBinary.changeKey; rw [hc]
+  · unfold IBinary.deleteIndex; rw [hc]
+  · unfold IBinary.peekIndex; rw [hc]
+
+theorem C05_invalid_index_rejected_ibinomial {K V : Type} (cmp : K → K → Int) (h : IBinomial K V) (i : Int)
+    (hi : i < 0 ∨ i ≥ (h.nodes.size : Int)) (k : K) (v : V) :
+    h.insert cmp i k v = .ok (h, false) ∧ h.changeKey cmp i k = .ok (h, false) ∧
+    h.deleteIndex cmp i = .ok (h, none) ∧ h.peekIndex i = .ok none ∧ h.containsIndex i = false := by
+  have hc : h.containsIndex i = false := by
+    unfold IBinomial.containsIndex; rw [if_neg (by omega)]
+  refine ⟨?_, ?_, ?_, ?_, hc⟩
+  · unfold IBinomial.insert; rw [if_pos (by omega)]
+  · unfold IBinomial.changeKey; rw [if_pos hc]
+  · unfold IBinomial.deleteIndex; rw [if_pos hc]
+  · unfold IBinomial.peekIndex; rw [if_pos hc]
+
+theorem C05_invalid_index_rejected_ifibonacci {K V : Type} (cmp : K → K → Int) (h : IFib K V) (i : Int)
+    (hi : i < 0 ∨ i ≥ (h.nodes.size : Int)) (k : K) (v : V) :
+    h.insert cmp i k v = .ok (h, false) ∧ h.changeKey cmp i k = .ok (h, false) ∧
+    h.deleteIndex cmp i = .ok (h, none) ∧ h.peekIndex i = .ok none ∧ h.containsIndex i = false := by
+  have hc : h.containsIndex i = false := by
+    unfold IFib.containsIndex; rw [if_neg (by omega)]
+  refine ⟨?_, ?_, ?_, ?_, hc⟩
+  · unfold IFib.insert; rw [if_pos (by omega)]
+  · unfold IFib.changeKey; rw [if_pos hc]
+  · unfold IFib.deleteIndex; rw [if_pos hc]
+  · unfold IFib.peekIndex; rw [if_pos hc]
+
+example : ∃ (h : IFib Int Nat) (i : Int), i < 0 ∨ i ≥ (h.nodes.size : Int) := ⟨IFib.new 3, 3, by decide⟩
